@@ -43,7 +43,7 @@ var c03Sigs = map[string][]string{
 	},
 	"isMethodQualified": {
 		"false <= ",
-		"true <= ((public-types.FilterI).GetSupportedMethods((internal-types.FlowI).GetFilter(param:flow))[i] == (public-types.APIStreamI).GetMethod(param:APIStream))",
+		"true <= ((public-types.APIStreamI).GetMethod(param:APIStream) == (public-types.FilterI).GetSupportedMethods((internal-types.FlowI).GetFilter(param:flow))[i])", // operands in canonical order (load.go)
 		"true <= (builtin.len((public-types.FilterI).GetAllowedMethods((internal-types.FlowI).GetFilter(param:flow))) == 0) ; (internal-types.FlowI).IsUserFlow(param:flow)",
 	},
 	"isQueryParamsQualified": {
